@@ -201,41 +201,48 @@ theorem nodup_step {d : Dict Int Rat} {k : Int} {v : Rat} {ks : List Int} (h : (
     ((d ++ [(k, v)]).map (·.1) ++ ks).Nodup := by
   simpa using h
 
-theorem bounds_inv_loop (p : Prop) [Decidable p] (supply : Bool) (hp : p ↔ supply = true) (bid : Group → Int) (g : Group)
+theorem bounds_inv_supply (bid : Group → Int) (g : Group)
     (invs : List Inv) (e i : Dict Int Rat) (hne : (e.map (·.1) ++ invs.map (·.id)).Nodup)
     (hni : (i.map (·.1) ++ invs.map (·.id)).Nodup) :
-    List.foldl (Extracted.DistLoops.inclusionExclusionBounds_for2 p (pairOf bid g).battery) (e, i) (invs.map invDataOf) =
-      (e ++ invs.map (fun v => (v.id, (normInv supply (aggregate g.bats) v).excl)),
-       i ++ invs.map (fun v => (v.id, (normInv supply (aggregate g.bats) v).incl))) := by
+    List.foldl (Extracted.DistLoops.inclusionExclusionBounds_for2 (pairOf bid g).battery) (e, i) (invs.map invDataOf) =
+      (e ++ invs.map (fun v => (v.id, (normInv true (aggregate g.bats) v).excl)),
+       i ++ invs.map (fun v => (v.id, (normInv true (aggregate g.bats) v).incl))) := by
   induction invs generalizing e i with
   | nil => simp
   | cons v invs ih =>
     simp only [List.map_cons, List.foldl_cons]
-    have hfe := fresh_of_nodup hne
-    have hfi := fresh_of_nodup hni
     simp only [List.map_cons] at hne hni
     have hfe : (invDataOf v).component_id ∉ e.map (·.1) := fresh_of_nodup hne
     have hfi : (invDataOf v).component_id ∉ i.map (·.1) := fresh_of_nodup hni
-    by_cases hs : supply = true
-    · have hp' : p := hp.mpr hs
-      simp only [Extracted.DistLoops.inclusionExclusionBounds_for2]
-      settle [hp']
-      rw [dictSet_fresh e _ _ hfe, dictSet_fresh i _ _ hfi]
-      simp only [show (invDataOf v).component_id = v.id from rfl]
-      rw [ih _ _ (nodup_step hne) (nodup_step hni)]
-      simp [normInv, hs, invExclSupply, invInclSupply, invDataOf, pairOf]
-    · have hp' : ¬ p := fun h => hs (hp.mp h)
-      simp only [Extracted.DistLoops.inclusionExclusionBounds_for2]
-      settle [hp']
-      rw [dictSet_fresh e _ _ hfe, dictSet_fresh i _ _ hfi]
-      simp only [show (invDataOf v).component_id = v.id from rfl]
-      rw [ih _ _ (nodup_step hne) (nodup_step hni)]
-      simp [normInv, hs, invExclConsume, invInclConsume, invDataOf, pairOf]
+    simp only [Extracted.DistLoops.inclusionExclusionBounds_for2]
+    rw [dictSet_fresh e _ _ hfe, dictSet_fresh i _ _ hfi]
+    simp only [show (invDataOf v).component_id = v.id from rfl]
+    rw [ih _ _ (nodup_step hne) (nodup_step hni)]
+    simp [normInv, invExclSupply, invInclSupply, invDataOf, pairOf]
 
-theorem bounds_loop (p : Prop) [Decidable p] (supply : Bool) (hp : p ↔ supply = true) (bid : Group → Int) (gs : List Group)
+theorem bounds_inv_consume (bid : Group → Int) (g : Group)
+    (invs : List Inv) (e i : Dict Int Rat) (hne : (e.map (·.1) ++ invs.map (·.id)).Nodup)
+    (hni : (i.map (·.1) ++ invs.map (·.id)).Nodup) :
+    List.foldl (Extracted.DistLoops.inclusionExclusionBounds_for4 (pairOf bid g).battery) (e, i) (invs.map invDataOf) =
+      (e ++ invs.map (fun v => (v.id, (normInv false (aggregate g.bats) v).excl)),
+       i ++ invs.map (fun v => (v.id, (normInv false (aggregate g.bats) v).incl))) := by
+  induction invs generalizing e i with
+  | nil => simp
+  | cons v invs ih =>
+    simp only [List.map_cons, List.foldl_cons]
+    simp only [List.map_cons] at hne hni
+    have hfe : (invDataOf v).component_id ∉ e.map (·.1) := fresh_of_nodup hne
+    have hfi : (invDataOf v).component_id ∉ i.map (·.1) := fresh_of_nodup hni
+    simp only [Extracted.DistLoops.inclusionExclusionBounds_for4]
+    rw [dictSet_fresh e _ _ hfe, dictSet_fresh i _ _ hfi]
+    simp only [show (invDataOf v).component_id = v.id from rfl]
+    rw [ih _ _ (nodup_step hne) (nodup_step hni)]
+    simp [normInv, invExclConsume, invInclConsume, invDataOf, pairOf]
+
+theorem bounds_supply (bid : Group → Int) (gs : List Group)
     (e i : Dict Int Rat) (hne : (e.map (·.1) ++ keysL bid gs).Nodup) (hni : (i.map (·.1) ++ keysL bid gs).Nodup) :
-    List.foldl (Extracted.DistLoops.inclusionExclusionBounds_for1 p) (e, i) (gs.map (pairOf bid)) =
-      (e ++ exclL supply bid gs, i ++ inclL supply bid gs) := by
+    List.foldl Extracted.DistLoops.inclusionExclusionBounds_for1 (e, i) (gs.map (pairOf bid)) =
+      (e ++ exclL true bid gs, i ++ inclL true bid gs) := by
   induction gs generalizing e i with
   | nil => simp [exclL, inclL]
   | cons g gs ih =>
@@ -243,51 +250,81 @@ theorem bounds_loop (p : Prop) [Decidable p] (supply : Bool) (hp : p ↔ supply 
     simp only [keysL, List.flatMap_cons, List.cons_append] at hne hni
     have hfe : (pairOf bid g).battery.component_id ∉ e.map (·.1) := fresh_of_nodup hne
     have hfi : (pairOf bid g).battery.component_id ∉ i.map (·.1) := fresh_of_nodup hni
-    have hne2 := nodup_step (v := (normGroup supply g).batExcl) hne
-    have hni2 := nodup_step (v := (normGroup supply g).batIncl) hni
-    have hne3 : ((e ++ [(bid g, (normGroup supply g).batExcl)]).map (·.1) ++ g.invs.map (·.id)).Nodup := by
+    have hne2 := nodup_step (v := (normGroup true g).batExcl) hne
+    have hni2 := nodup_step (v := (normGroup true g).batIncl) hni
+    have hne3 : ((e ++ [(bid g, (normGroup true g).batExcl)]).map (·.1) ++ g.invs.map (·.id)).Nodup := by
       rw [← List.append_assoc] at hne2; exact (List.nodup_append.mp hne2).1
-    have hni3 : ((i ++ [(bid g, (normGroup supply g).batIncl)]).map (·.1) ++ g.invs.map (·.id)).Nodup := by
+    have hni3 : ((i ++ [(bid g, (normGroup true g).batIncl)]).map (·.1) ++ g.invs.map (·.id)).Nodup := by
       rw [← List.append_assoc] at hni2; exact (List.nodup_append.mp hni2).1
-    have hinner := bounds_inv_loop p supply hp bid g g.invs _ _ hne3 hni3
-    have hne4 : ((e ++ [(bid g, (normGroup supply g).batExcl)] ++ g.invs.map (fun v => (v.id, (normInv supply (aggregate g.bats) v).excl))).map (·.1)
+    have hinner := bounds_inv_supply bid g g.invs _ _ hne3 hni3
+    have hne4 : ((e ++ [(bid g, (normGroup true g).batExcl)] ++ g.invs.map (fun v => (v.id, (normInv true (aggregate g.bats) v).excl))).map (·.1)
         ++ keysL bid gs).Nodup := by
       simpa [keysL, List.map_map, Function.comp_def] using hne2
-    have hni4 : ((i ++ [(bid g, (normGroup supply g).batIncl)] ++ g.invs.map (fun v => (v.id, (normInv supply (aggregate g.bats) v).incl))).map (·.1)
+    have hni4 : ((i ++ [(bid g, (normGroup true g).batIncl)] ++ g.invs.map (fun v => (v.id, (normInv true (aggregate g.bats) v).incl))).map (·.1)
         ++ keysL bid gs).Nodup := by
       simpa [keysL, List.map_map, Function.comp_def] using hni2
     have hnext := ih _ _ hne4 hni4
-    by_cases hs : supply = true
-    · have hp' : p := hp.mpr hs
-      have hbe : (normGroup supply g).batExcl = -(aggregate g.bats).el := by simp [normGroup, hs, batExclSupply]
-      have hbi : (normGroup supply g).batIncl = -(aggregate g.bats).il := by simp [normGroup, hs, batInclSupply]
-      simp only [Extracted.DistLoops.inclusionExclusionBounds_for1]
-      settle [hp']
-      rw [dictSet_fresh e _ _ hfe, dictSet_fresh i _ _ hfi]
-      have h1 : (pairOf bid g).battery.component_id = bid g := rfl
-      have h2 : (pairOf bid g).battery.power_bounds.exclusion_lower = (aggregate g.bats).el := rfl
-      have h3 : (pairOf bid g).battery.power_bounds.inclusion_lower = (aggregate g.bats).il := rfl
-      have h4 : (pairOf bid g).inverter = g.invs.map invDataOf := rfl
-      simp only [h1, h2, h3, h4, ← hbe, ← hbi, hinner, hnext]
-      simp [exclL, inclL, List.append_assoc]
-    · have hp' : ¬ p := fun h => hs (hp.mp h)
-      have hbe : (normGroup supply g).batExcl = (aggregate g.bats).eu := by simp [normGroup, hs, batExclConsume]
-      have hbi : (normGroup supply g).batIncl = (aggregate g.bats).iu := by simp [normGroup, hs, batInclConsume]
-      simp only [Extracted.DistLoops.inclusionExclusionBounds_for1]
-      settle [hp']
-      rw [dictSet_fresh e _ _ hfe, dictSet_fresh i _ _ hfi]
-      have h1 : (pairOf bid g).battery.component_id = bid g := rfl
-      have h2 : (pairOf bid g).battery.power_bounds.exclusion_upper = (aggregate g.bats).eu := rfl
-      have h3 : (pairOf bid g).battery.power_bounds.inclusion_upper = (aggregate g.bats).iu := rfl
-      have h4 : (pairOf bid g).inverter = g.invs.map invDataOf := rfl
-      simp only [h1, h2, h3, h4, ← hbe, ← hbi, hinner, hnext]
-      simp [exclL, inclL, List.append_assoc]
+    have hbe : (normGroup true g).batExcl = -(aggregate g.bats).el := by simp [normGroup, batExclSupply, batInclSupply]
+    have hbi : (normGroup true g).batIncl = -(aggregate g.bats).il := by simp [normGroup, batExclSupply, batInclSupply]
+    simp only [Extracted.DistLoops.inclusionExclusionBounds_for1]
+    rw [dictSet_fresh e _ _ hfe, dictSet_fresh i _ _ hfi]
+    have h1 : (pairOf bid g).battery.component_id = bid g := rfl
+    have h2 : (pairOf bid g).battery.power_bounds.exclusion_lower = (aggregate g.bats).el := rfl
+    have h3 : (pairOf bid g).battery.power_bounds.inclusion_lower = (aggregate g.bats).il := rfl
+    have h4 : (pairOf bid g).inverter = g.invs.map invDataOf := rfl
+    simp only [h1, h2, h3, h4, ← hbe, ← hbi, hinner, hnext]
+    simp [exclL, inclL, List.append_assoc]
+
+theorem bounds_consume (bid : Group → Int) (gs : List Group)
+    (e i : Dict Int Rat) (hne : (e.map (·.1) ++ keysL bid gs).Nodup) (hni : (i.map (·.1) ++ keysL bid gs).Nodup) :
+    List.foldl Extracted.DistLoops.inclusionExclusionBounds_for3 (e, i) (gs.map (pairOf bid)) =
+      (e ++ exclL false bid gs, i ++ inclL false bid gs) := by
+  induction gs generalizing e i with
+  | nil => simp [exclL, inclL]
+  | cons g gs ih =>
+    simp only [List.map_cons, List.foldl_cons]
+    simp only [keysL, List.flatMap_cons, List.cons_append] at hne hni
+    have hfe : (pairOf bid g).battery.component_id ∉ e.map (·.1) := fresh_of_nodup hne
+    have hfi : (pairOf bid g).battery.component_id ∉ i.map (·.1) := fresh_of_nodup hni
+    have hne2 := nodup_step (v := (normGroup false g).batExcl) hne
+    have hni2 := nodup_step (v := (normGroup false g).batIncl) hni
+    have hne3 : ((e ++ [(bid g, (normGroup false g).batExcl)]).map (·.1) ++ g.invs.map (·.id)).Nodup := by
+      rw [← List.append_assoc] at hne2; exact (List.nodup_append.mp hne2).1
+    have hni3 : ((i ++ [(bid g, (normGroup false g).batIncl)]).map (·.1) ++ g.invs.map (·.id)).Nodup := by
+      rw [← List.append_assoc] at hni2; exact (List.nodup_append.mp hni2).1
+    have hinner := bounds_inv_consume bid g g.invs _ _ hne3 hni3
+    have hne4 : ((e ++ [(bid g, (normGroup false g).batExcl)] ++ g.invs.map (fun v => (v.id, (normInv false (aggregate g.bats) v).excl))).map (·.1)
+        ++ keysL bid gs).Nodup := by
+      simpa [keysL, List.map_map, Function.comp_def] using hne2
+    have hni4 : ((i ++ [(bid g, (normGroup false g).batIncl)] ++ g.invs.map (fun v => (v.id, (normInv false (aggregate g.bats) v).incl))).map (·.1)
+        ++ keysL bid gs).Nodup := by
+      simpa [keysL, List.map_map, Function.comp_def] using hni2
+    have hnext := ih _ _ hne4 hni4
+    have hbe : (normGroup false g).batExcl = (aggregate g.bats).eu := by simp [normGroup, batExclConsume, batInclConsume]
+    have hbi : (normGroup false g).batIncl = (aggregate g.bats).iu := by simp [normGroup, batExclConsume, batInclConsume]
+    simp only [Extracted.DistLoops.inclusionExclusionBounds_for3]
+    rw [dictSet_fresh e _ _ hfe, dictSet_fresh i _ _ hfi]
+    have h1 : (pairOf bid g).battery.component_id = bid g := rfl
+    have h2 : (pairOf bid g).battery.power_bounds.exclusion_upper = (aggregate g.bats).eu := rfl
+    have h3 : (pairOf bid g).battery.power_bounds.inclusion_upper = (aggregate g.bats).iu := rfl
+    have h4 : (pairOf bid g).inverter = g.invs.map invDataOf := rfl
+    simp only [h1, h2, h3, h4, ← hbe, ← hbi, hinner, hnext]
+    simp [exclL, inclL, List.append_assoc]
 
 /-- `_inclusion_exclusion_bounds` yields, for distinct component ids, the model's bounds of the requested side. -/
 theorem bounds_eq_source (p : Prop) [Decidable p] (supply : Bool) (hp : p ↔ supply = true) (bid : Group → Int) (gs : List Group)
     (hnd : (keysL bid gs).Nodup) :
     Extracted.DistLoops.inclusionExclusionBounds (gs.map (pairOf bid)) p = (inclL supply bid gs, exclL supply bid gs) := by
   unfold Extracted.DistLoops.inclusionExclusionBounds
-  simp only [bounds_loop p supply hp bid gs [] [] (by simpa using hnd) (by simpa using hnd), List.nil_append]
+  by_cases hs : supply = true
+  · have hp' : p := hp.mpr hs
+    subst hs
+    settle [hp']
+    simp only [bounds_supply bid gs [] [] (by simpa using hnd) (by simpa using hnd), List.nil_append]
+  · have hp' : ¬ p := fun h => hs (hp.mp h)
+    have hs' : supply = false := by simpa using hs
+    subst hs'
+    settle [hp']
+    simp only [bounds_consume bid gs [] [] (by simpa using hnd) (by simpa using hnd), List.nil_append]
 
 end DistTie
